@@ -17,11 +17,16 @@ def clsOf : String → Option Cls
   | "ResidualGive" => some .ResidualGive | "ResidualTake" => some .ResidualTake
   | "SmootherGive" => some .SmootherGive | "SmootherTake" => some .SmootherTake
   | "ExSmootherGive" => some .ExSmootherGive | "ExSmootherTake" => some .ExSmootherTake
+  | "DirectGive" => some .DirectGive | "DirectTake" => some .DirectTake
+  | "SmootherGiveAsc" => some .SmootherGiveAsc | "SmootherTakeAsc" => some .SmootherTakeAsc
+  | "ExSmootherGiveAsc" => some .ExSmootherGiveAsc | "ExSmootherTakeAsc" => some .ExSmootherTakeAsc
   | _ => none
 def fnOf : String → Option Fn
   | "applyCircleSection" => some .applyCircleSection | "applyRadialSection" => some .applyRadialSection
   | "applyAscOrthoCircleSection" => some .applyAscOrthoCircleSection | "applyAscOrthoRadialSection" => some .applyAscOrthoRadialSection
   | "solveCircleSection" => some .solveCircleSection | "solveRadialSection" => some .solveRadialSection
+  | "buildSolverMatrixCircleSection" => some .buildSolverMatrixCircleSection | "buildSolverMatrixRadialSection" => some .buildSolverMatrixRadialSection
+  | "buildAscCircleSection" => some .buildAscCircleSection | "buildAscRadialSection" => some .buildAscRadialSection
   | _ => none
 def colOf : String → Colour
   | "black" => .black | "white" => .white | _ => .none
@@ -88,7 +93,7 @@ structure St where
   conflicts : Nat := 0
   sigs : Std.HashSet String := {}
 
-def vectorRegions : List Region := Gen.all.take 6
+def vectorRegions : List Region := Gen.all
 
 def flush (σ : St) : IO St := do
   match σ.shape with
